@@ -108,11 +108,13 @@ def finish(prop, tier, seed, results, reg, table, wall, timeout_ms):
             continue
         key = "%s||%s" % (o["unit"], o["name"])
         fn_changed = baseline.get("functions", {}).get(r.get("unit")) not in (None, r.get("sha256"))
-        if key in baseline.get("proved", []) and fn_changed:
+        if fn_changed:
             rec = {"property": prop, "unit": o["unit"], "obligation": o["name"], "kind": o["kind"],
                    "function": r.get("qual"), "receiver_class": r.get("cls"), "file": r.get("file"),
                    "line": r.get("line"), "segment_sha256": r.get("sha256"),
-                   "verdict": "obligation proved on the unchanged tree (baseline) is no longer discharged: %s" % o.get("reason"),
+                   "verdict": "obligation of a function whose source differs from the recorded baseline is not discharged "
+                              "(%s): %s" % ("it was proved on the unchanged tree" if key in baseline.get("proved", []) else
+                                            "it did not arise on the unchanged tree", o.get("reason")),
                    "solver_model": None, "detail": {"solver_reason": o.get("reason")},
                    "contract": contract_text(reg, r.get("qual")), "tier": tier}
             os.makedirs(rdir, exist_ok=True)
